@@ -77,6 +77,7 @@ fn run(max: u16, seed: u64) {
 fn verif_sweep_c10_ids_through_the_public_api() {
     let seed0: u64 = std::env::var("VERIF_SEED").ok().and_then(|v| v.parse().ok()).unwrap_or(1);
     for (k, max) in [1u16, 2, 5].iter().enumerate() {
-        run(*max, seed0.wrapping_add(k as u64 * 7919));
+        let (m, sd) = (*max, seed0.wrapping_add(k as u64 * 7919));
+        with_watchdog(format!("channel_max={} seed={}", m, sd), 60, move || run(m, sd));
     }
 }
